@@ -272,6 +272,13 @@ def proxAvgWeights (N : α) (alphas : Option (List α)) (n : Nat) : List α :=
     let s := al.foldl (· + ·) 0      -- python `sum(alpha_list)`: left fold from 0
     if isZero (s - 1) then al else al.map (fun a => a / s)
 
+/-- `ProximalAverage.__init__` argument check: `alpha_list`, if given, must have as many entries as
+    `func_list` (`ValueError`, `none`); otherwise the stored weights -/
+def proxAvgInit (N : α) (alphas : Option (List α)) (n : Nat) : Option (List α) :=
+  match alphas with
+  | some al => if al.length = n then some (proxAvgWeights N alphas n) else none
+  | none => some (proxAvgWeights N none n)
+
 /-- `ProximalAverage.__call__` (after ba347d8): `vals = [alpha_i * f_i(x)]`; with `no_inf_eval` every
     infinite entry is replaced by `0.0` (`snp.where(snp.isinf(val), 0.0, val)`); python `sum` (left fold from 0) -/
 def proxAvgEval (isInf : α → Bool) (noInf : Bool) (ws vals : List α) : α :=
